@@ -4,13 +4,22 @@ C14 — protocols: each step's parameter values hold exactly over its interval.
 Theorems about `Mxl.C14.makeProtocol`, `simulateProtocol`, `simulateProtocolTC`, `stepP`, `runP`
 (Model/C14.lean; the functions the driver executes) on top of the C04 machine.  A protocol is
 *well-formed* (`wfSteps`) when its durations are positive and every step names the same distinct
-parameters in the same order.  The code violates the property for a protocol that follows a
-steady-state run (same root cause as F-C04-2): `C14_refines_spec_full_fails` is the witness, the
-history theorem is `_partial` under `okHistP`.
+parameters in the same order.  Since the repair of F-C04-2 (root cause of F-C14-2) the history theorems hold
+for every history whose protocols are well-formed — also when a protocol follows a steady-state run.
+The comparison operators of the refusal test and of the half-open selection are read from the current source
+(`Gen.protocolTCRefusal`, `Gen.selectLo`, `Gen.selectHi`; translate/c04.py): see `C14_source_facts`.
 -/
 import MxlVerif.Lemmas.C14Index
 namespace Mxl.C14
 open Mxl.C04
+
+/-! ## The facts of the current source the proofs rest on -/
+
+/-- `simulate_protocol_time_course` refuses with `time_points[-1] <= t_start` and selects `(t_start, t_end]`
+    (`>` and `<=`); defaults: 10 time points per step, absolute time points -/
+theorem C14_source_facts :
+    Gen.protocolTCRefusal = .le ∧ Gen.selectLo = .gt ∧ Gen.selectHi = .le ∧
+    Gen.defaultTimePointsPerStep = 10 ∧ Gen.defaultRelative = false := by decide
 
 /-! ## `make_protocol`: cumulative sums -/
 
@@ -84,7 +93,7 @@ theorem C14_step_uses_step_pars {σ} (S : Sys σ) (a : Spec σ) (p : Upd) (p' : 
     unfold Spec.simulate
     have h1 : ¬ t ≤ a.now := by grind
     have h2 : ¬ (n + 1 + 1 < 2) := by omega
-    simp [hf, h1, h2, nPoints]
+    simp [hf, h1, h2, nPoints_some]
   rcases Spec.simulate_cases S { a with pars := p' } t (some (n + 1)) with ⟨_, h | h⟩ | ⟨g', _, _, c⟩
   · exact absurd hout h
   · simp [hf] at h
@@ -114,7 +123,7 @@ theorem C14_tc_index (pts : List Rat) (lo hi : Rat) (hlo : lo < hi) :
     axis before (the start time itself if there was no result) followed by the steps' points; a time
     is among those iff it is a requested point in `(t_start, T_end]` or a step boundary; every such
     time is on the axis exactly once, the axis is strictly increasing, and the clock is at `T_end`.
-    (`C14_refines_spec_partial` carries this over to the Simulator.) -/
+    (`C14_refines_spec` carries this over to the Simulator.) -/
 theorem C14_tc_index_whole_call {σ} (S : Sys σ) (a : Spec σ) (steps : List PStep) (pts : List Rat)
     (hne : steps ≠ []) (hf : a.failed = false) (hax : Spec.Axis a)
     (hpos : steps.all (fun s => decide (0 < s.1)) = true)
@@ -131,8 +140,7 @@ theorem C14_tc_index_whole_call {σ} (S : Sys σ) (a : Spec σ) (steps : List PS
   have hemp : steps.isEmpty = false := by cases steps <;> simp at hne ⊢
   simp only [hemp, Bool.false_eq_true, if_false] at ht
   have hsorted : (times a'.segs).Pairwise (· < ·) :=
-    (Spec.runStop_axis S _ a hax
-      (simLike_steadyPos _ (expandProtocolTC_simLike pts a.now steps))).sorted
+    (Spec.runStop_axis S _ a hax).sorted
   refine ⟨ht, fun t => mem_allStepPoints pts a.now steps hpos t, hsorted, ?_, hnow⟩
   intro t hmem
   apply count_eq_one_of_pairwise _ hsorted
@@ -143,50 +151,39 @@ theorem C14_tc_index_whole_call {σ} (S : Sys σ) (a : Spec σ) (steps : List PS
 /-! ## histories with protocols -/
 
 /-- every history of simulate / time-course / steady-state / update / clear / protocol calls with
-    well-formed protocols outside the steady-state finding class: the Simulator and the
+    well-formed protocols: the Simulator and the
     specification machine (protocol = explicit calls on the absolute clock) give the same per-call
     outcomes, the same segments (times, states, `raw_parameters`) and the same parameter values —
-    fresh or continued, also after an override -/
-theorem C14_refines_spec_partial {σ} (S : Sys σ) (p : Pars) (y0 : σ) (ops : List OpP)
-    (hok : okHistP HSt.start ops = true) :
+    fresh or continued, also after an override or a steady-state run -/
+theorem C14_refines_spec {σ} (S : Sys σ) (p : Pars) (y0 : σ) (ops : List OpP)
+    (hok : ops.all wfOp = true) :
     (runP S (Sim.init p y0) ops).2 = (Spec.runP S (Spec.init p y0) ops).2 ∧
     (runP S (Sim.init p y0) ops).1.segs = (Spec.runP S (Spec.init p y0) ops).1.segs ∧
     (runP S (Sim.init p y0) ops).1.pars = (Spec.runP S (Spec.init p y0) ops).1.pars := by
-  obtain ⟨h1, h', r⟩ := runP_refines S ops HSt.start _ _ (Rel.init p y0) hok
+  obtain ⟨h1, r⟩ := runP_refines S ops _ _ (Rel.init p y0) hok
   exact ⟨h1, r.segs, r.pars⟩
 
 /-- hence (C04's axis theorem for the spec machine, whose protocol calls are C04 calls) the
     accumulated result of every such history has a strictly increasing time axis -/
-theorem C14_axis_increasing_partial {σ} (S : Sys σ) (p : Pars) (y0 : σ) (ops : List OpP)
-    (hok : okHistP HSt.start ops = true) :
+theorem C14_axis_increasing {σ} (S : Sys σ) (p : Pars) (y0 : σ) (ops : List OpP)
+    (hok : ops.all wfOp = true) :
     (times (runP S (Sim.init p y0) ops).1.segs).Pairwise (· < ·) := by
-  rw [(C14_refines_spec_partial S p y0 ops hok).2.1]
-  exact (Spec.runP_axis S ops _ (Spec.Axis.init p y0) (okHistP_steadyPos ops _ hok)).sorted
+  rw [(C14_refines_spec S p y0 ops hok).2.1]
+  exact (Spec.runP_axis S ops _ (Spec.Axis.init p y0)).sorted
 
-/-- the unrestricted statement is false of the code: a protocol after a steady-state run restarts
-    from time 0 (axis `[200, 201/2, 201, 202, 203]`, not increasing) -/
-theorem C14_refines_spec_full_fails :
+/-- the history that witnessed F-C14-2 before the repair: a protocol after a steady-state run continues from
+    the steady state at the reported time (axis `[100, 201/2, 101, 102, 103]`), in model and specification -/
+theorem C14_steady_witness_repaired :
     times (runP termSys (Sim.init [("k", 1)] STerm.init)
-        [.basic (.steady (some 200)), .protocol [(1, [("k", 1)]), (2, [("k", 2)])] 2]).1.segs
-      ≠ times (Spec.runP termSys (Spec.init [("k", 1)] STerm.init)
-        [.basic (.steady (some 200)), .protocol [(1, [("k", 1)]), (2, [("k", 2)])] 2]).1.segs := by
-  intro h
-  have h1 : strictInc (times (runP termSys (Sim.init [("k", 1)] STerm.init)
-      [.basic (.steady (some 200)), .protocol [(1, [("k", 1)]), (2, [("k", 2)])] 2]).1.segs) = false := by
-    decide +kernel
-  have h2 : strictInc (times (Spec.runP termSys (Spec.init [("k", 1)] STerm.init)
-      [.basic (.steady (some 200)), .protocol [(1, [("k", 1)]), (2, [("k", 2)])] 2]).1.segs) = true := by
-    decide +kernel
-  rw [h, h2] at h1
-  cases h1
+        [.basic (.steady (some 0)), .protocol [(1, [("k", 1)]), (2, [("k", 2)])] 2]).1.segs
+      = [100, 201/2, 101, 102, 103] := by decide +kernel
 
 /-! ## Non-vacuity -/
 
 /-- a continued history with an override before a relative time-course protocol is covered -/
-example : okHistP HSt.start
-    [.basic (.simulate 2 (some 1)), .basic (.updVars [("x", 1)]),
+example : [OpP.basic (.simulate 2 (some 1)), .basic (.updVars [("x", 1)]), .basic (.steady (some 0)),
      .protocolTC [(1, [("k", 1)]), (2, [("k", 2)])] [1/2, 5/2, 3, 9/2] true,
-     .protocol [(1/2, [("k", 2), ("u", 0)]), (1/2, [("k", 1), ("u", 1)])] 4] = true := by decide +kernel
+     .protocol [(1/2, [("k", 2), ("u", 0)]), (1/2, [("k", 1), ("u", 1)])] 4].all wfOp = true := by decide +kernel
 
 /-- and on it the model records the axis 0,2 | 5/2,3 | 9/2,5 | … with the steps' parameters -/
 example : times (runP termSys (Sim.init [("k", 1/2)] STerm.init)
